@@ -1064,6 +1064,30 @@ func (x *Exec) binop(st *State, f *Frame, in *ssa.BinOp) Val {
 	b := x.get(st, f, in.Y)
 	xt := in.X.Type()
 	switch av := a.(type) {
+	case A:
+		// == / != on arrays and structs of words: conjunction of slot-wise equalities
+		bv, ok := b.(A)
+		if ok && len(av.f) == len(bv.f) && (in.Op == token.EQL || in.Op == token.NEQ) {
+			acc := d.Bool(true)
+			for i := range av.f {
+				wa, oka := av.f[i].(W)
+				wb, okb := bv.f[i].(W)
+				if !oka || !okb {
+					x.fail("aggregate comparison over non-word slots")
+				}
+				var e *Node
+				if wa.n.W == 0 {
+					e = d.BNot(d.mkXor(wa.n, wb.n))
+				} else {
+					e = d.Cmp("eq", wa.n, wb.n)
+				}
+				acc = d.BAnd(acc, e)
+			}
+			if in.Op == token.NEQ {
+				acc = d.BNot(acc)
+			}
+			return W{acc}
+		}
 	case Fl:
 		bv := b.(Fl)
 		switch in.Op {
